@@ -1,7 +1,10 @@
 SPECIFICATION Spec
 CONSTANTS
-  Pairs <- PairsQuick
-  AllPython = FALSE
+  Pairs <- PairsStrict
+  PairsRef <- NoPairs
   Dump = FALSE
+INVARIANT RefShape
 INVARIANT ImplAgrees
+INVARIANT RefShape
+INVARIANT Publish
 CHECK_DEADLOCK FALSE
